@@ -149,11 +149,11 @@ def run(chk):
         # quick tier: every (route, method, variation class) once, bodies sampled
         def xb(r):      # XML-illegal code points: always with an XML Accept on GET, a sample of the rest
             return "xmlbad" not in r["cls"] or (r["method"] == "GET" and r["accept"][1] != "json") or rng.random() < 0.05
-        keep = [r for r in mx if xb(r) and ("|body:" not in r["cls"] or r["cls"].endswith("body:missing") or rng.random() < 0.12
+        keep = [r for r in mx if xb(r) and ("|body:" not in r["cls"] or r["cls"].endswith("body:missing") or rng.random() < 0.07
                 or (r["cls"].startswith(("path:rel|", "path:arel|")) and r["body"][0] == "val" and r["body"][2]["k"] == "elem")
                 or (r["method"] == "PUT" and "qualifier_type" in r["rule"] and r["cls"].startswith(("valid|body:qual", "path:valid|body:qual")))
                 or r["cls"].endswith("body:upload-samename") or "defective-" in r["cls"] or "name" in r["cls"].split("body:")[-1]
-                or "deep-" in r["cls"] or "ctparam:" in r["cls"] or "redirect-tail" in r["cls"]
+                or "deep-" in r["cls"] or "surrogate" in r["cls"] or "ctparam:" in r["cls"] or "redirect-tail" in r["cls"]
                 or (r["body"][0] == "val" and any(t in r["cls"] for t in ("body:list-", "body:sm-list", "body:blob-")) and
                     r["cls"].startswith(("valid|", "path:list|", "path:list-range|", "path:blob-empty|")))
                 or (r["method"] == "POST" and r["body"][0] == "val" and r["body"][1] == "json"
